@@ -74,6 +74,22 @@ func vpProtoBuilder(verImpl IRoomVersion, name string) *EventBuilder {
 		prev = []string{"$0123456789012345678901234567890123456789abc"}
 		auth = []string{"$0123456789012345678901234567890123456789abd"}
 	}
+	// shape of the auth-event list: one, none, two, and (for rooms whose ID names the create event) lists that name
+	// the create event themselves, in second or in first place
+	switch vpChoice(name+".auth_shape", "one", "none", "two", "create-second", "create-first") {
+	case "none":
+		auth = []string{}
+	case "two":
+		auth = append(auth, prev[0])
+	case "create-second":
+		if vpIsV12(ver) {
+			auth = append(auth, "$"+room[1:])
+		}
+	case "create-first":
+		if vpIsV12(ver) {
+			auth = append([]string{"$" + room[1:]}, auth...)
+		}
+	}
 	eb := verImpl.NewEventBuilderFromProtoEvent(&ProtoEvent{
 		SenderID: vpAlice, RoomID: room, Type: typ, StateKey: sk, PrevEvents: prev, AuthEvents: auth,
 		Depth: int64(vpNondetBits(name+".depth", 20)), Content: content,
@@ -110,10 +126,24 @@ func vp_C03_roundtrip() {
 	vpAssert("built:prev", vpSameStrings(ev.PrevEventIDs(), eb.PrevEvents.([]string)))
 	wantAuth := eb.AuthEvents.([]string)
 	if vpIsV12(ver) {
-		// every non-create event of a v12 room reports the create event (room ID with the sigil swapped) first
-		wantAuth = append([]string{"$" + eb.RoomID[1:]}, wantAuth...)
+		// every non-create event of a v12 room reports the create event (room ID with the sigil swapped) first, then
+		// the listed auth events (whether a listed create event is repeated is left open)
+		createID := "$" + eb.RoomID[1:]
+		gotAuth := ev.AuthEventIDs()
+		vpAssert("built:create-event-first", len(gotAuth) > 0 && gotAuth[0] == createID)
+		without := func(l []string) []string {
+			out := []string{}
+			for _, x := range l {
+				if x != createID {
+					out = append(out, x)
+				}
+			}
+			return out
+		}
+		vpAssert("built:auth", vpSameStrings(without(gotAuth), without(wantAuth)))
+	} else {
+		vpAssert("built:auth", vpSameStrings(ev.AuthEventIDs(), wantAuth))
 	}
-	vpAssert("built:auth", vpSameStrings(ev.AuthEventIDs(), wantAuth))
 	vpAssert("built-not-redacted", !ev.Redacted())
 	// the JSON has the event format of the room version (the harness's own table): format 1 carries its event_id and
 	// refers to other events by [id, hashes] pairs; format 2 carries no event_id and refers to them by ID
